@@ -221,12 +221,17 @@ def mFlagStr : Option Dashu.Model.Float.Rounding → String
 def mirrorable (a : FArg) : Bool := !a.x.inf && a.x.exp.natAbs ≤ 20000
 
 /-- cost rule of the mirror run (the model's digit counting is a division loop: ~0.1 s at 256 digits, ~5–40 s at
-    1024 digits of base 36, minutes at 3000): every case with `p·log2 B ≤ 1700` bits of working size is mirrored
-    (all precisions up to 1024 in bases 2 and 3, up to 511 in base 10, 328 in base 36), one case in four (chosen
-    by the operand's significand, so reproducibly) up to `p·log2 B ≤ 5300` (p = 1024 in every base), none above;
-    cases not mirrored carry the annotation `+mirror-skip` and are decided by the certificate alone, as before -/
-def mirrorBudget (a : FArg) (p : Nat) : Bool :=
-  p * a.base.log2 ≤ 1700 || (p * a.base.log2 ≤ 5300 && a.x.sig.natAbs % 4 == 1)
+    1024 digits of base 36, minutes at 3000).  The EFFECTIVE precision of a run is `p`, or — for `ln` / `ln_1p` /
+    the base of `powf` outside base 2 — the digit count of `2^s` (`FBig::from(IBig::ONE << s)` carries it as its
+    precision and `Context::max` hands it on to the whole series), i.e. about `|log_B x|`.  Every case with
+    `eff·⌊log2 B⌋ ≤ 1700` is mirrored (all precisions up to 1024 in bases 2 and 3, up to 566 in base 10, 340 in base 36),
+    one case in eight (chosen by the operand's significand, so reproducibly) up to `eff·⌊log2 B⌋ ≤ 5300` (p = 1024 in
+    every base), none above; cases not mirrored carry the annotation `+mirror-skip` and are decided by the
+    certificate alone, as before -/
+def mirrorBudget (a : FArg) (p : Nat) (lnLike : Bool) : Bool :=
+  let top := (a.x.exp + (digits a.base a.x.sig.natAbs : Int)).natAbs
+  let eff := if lnLike ∧ a.base ≠ 2 then max p top else p
+  eff * a.base.log2 ≤ 1700 || (eff * a.base.log2 ≤ 5300 && a.x.sig.natAbs % 8 == 1)
 
 /-- put `tag` into the key of the first annotation of an `ok` line (`… #cert-n=5` ↦ `… #cert-n+tag=5 …`) -/
 def annotate (s tag rest : String) : String :=
@@ -265,7 +270,7 @@ def expEntryOrLn (fn : Fn) (a : FArg) (p : Nat) : Bool :=
 
 def unaryMirror (fn : Fn) (a : FArg) (p : Nat) (claim : Option (List String)) (s : String) : String :=
   if p = 0 ∨ !mirrorable a ∨ !s.startsWith "ok " then s
-  else if !mirrorBudget a p then (if expEntryOrLn fn a p then annotate s "mirror-skip" "" else s)
+  else if !mirrorBudget a p (fn == .ln || fn == .ln1p) then (if expEntryOrLn fn a p then annotate s "mirror-skip" "" else s)
   else
     let x : Dashu.Model.Float.FRepr := ⟨a.x.sig, a.x.exp⟩
     let en := match fn with
@@ -284,7 +289,7 @@ def unaryMirror (fn : Fn) (a : FArg) (p : Nat) (claim : Option (List String)) (s
 
 def powfMirror (a b : FArg) (p : Nat) (claim : Option (List String)) (s : String) : String :=
   if p = 0 ∨ !mirrorable a ∨ !mirrorable b ∨ !s.startsWith "ok " ∨ powfEntry a.x b.x p != .compute then s
-  else if !mirrorBudget a p then annotate s "mirror-skip" ""
+  else if !mirrorBudget a p true then annotate s "mirror-skip" ""
   else mirrorCmp "powf" (powfBody mirrorFuel (envOf a) p ⟨a.x.sig, a.x.exp⟩ ⟨b.x.sig, b.x.exp⟩) claim s
 
 def entryStr (en : Entry) (a : FArg) (p : Nat) (k : Unit → Option String) : Option String :=
